@@ -46,6 +46,13 @@ def simulate(wd, num, depth, sd):
     return res
 
 
+def directed_slow():
+    """Needs the 20 s read throttle to lapse: balances stay readable only with the owner's key, also once one is cached."""
+    Bal = lambda a, d, by: {"op": "balance", "a": a, "d": d, "by": by}
+    return [[Bal("A", "A", "A"), Bal("B", "B", "B"), {"op": "throttleexpire"}, Bal("A", "A", "M"), Bal("B", "B", "A"),
+             {"op": "throttleexpire"}, Bal("A", "A", "A")]]
+
+
 def directed():
     P = lambda t, by="A", form="issued": {"op": "propose", "t": t, "by": by, "form": form}
     C = lambda t, i="A", r="B": {"op": "confirm", "t": t, "issBy": i, "rcvBy": r}
@@ -133,7 +140,7 @@ def check(prop, tier):
     mc = run_mc(wd, tier)
     log("[mc] Notary %s" % mc)
     sims = simulate(wd, 120 if tier == "quick" else 1500, 22, rng.randint(1, 10 ** 6))
-    behaviours = [{"id": "C16-%d" % i, "ops": ops} for i, ops in enumerate(sims + directed())]
+    behaviours = [{"id": "C16-%d" % i, "ops": ops} for i, ops in enumerate(sims + directed() + directed_slow())]
     log("[gen] %d behaviours" % len(behaviours))
     violations, nev, calls = drive_validate(wd, drivebin, behaviours, INV)
     kv, _, _ = drive_validate(os.path.join(wd, "kf"), drivebin, [{"id": "C16-witness-F11", "ops": WITNESS_F11}],
